@@ -758,10 +758,39 @@ class Interp:
         return [self.eval(e, env, func, depth) for e in node.elts]
 
     def e_Dict(self, node, env, func, depth):
+        if any(k is None for k in node.keys):
+            # {k: v, **D, ...}: layers in source order, the LAST layer that has a key wins.  A parameter dictionary whose
+            # entries are made on demand stands for "whatever the caller put there": it may hold any key, so for every
+            # key it comes after it wins (the case of a caller whose dictionary carries that key too)
+            layers = []
+            cur = {}
+            for k, v in zip(node.keys, node.values):
+                if k is None:
+                    if cur:
+                        layers.append(cur)
+                        cur = {}
+                    layers.append(self.eval(v, env, func, depth))
+                else:
+                    cur[self.eval(k, env, func, depth)] = self.eval(v, env, func, depth)
+            if cur:
+                layers.append(cur)
+            if not all(isinstance(l, (dict, ParamDict)) for l in layers):
+                raise AnalysisError("%s:%d dictionary unpacking of a non-dictionary" % (func.qualname, node.lineno))
+
+            def lookup(key):
+                for l in reversed(layers):
+                    if isinstance(l, dict):
+                        if key in l:
+                            return l[key]
+                    elif key in l.entries or key in l.present or l.make is not None:
+                        return l.get(key)
+                raise AnalysisError("parameter %r not provided" % key)
+            present = set()
+            for l in layers:
+                present |= set(l.keys()) if isinstance(l, dict) else set(l.present) | set(l.entries)
+            return ParamDict({}, present=present, make=lookup)
         out = {}
         for k, v in zip(node.keys, node.values):
-            if k is None:
-                raise AnalysisError("dictionary unpacking unsupported")
             out[self.eval(k, env, func, depth)] = self.eval(v, env, func, depth)
         return out
 
